@@ -45,11 +45,17 @@ ASSUMPTIONS = [
 ]
 QUICK_MODELS = ["sphere", "core_shell_sphere", "cylinder", "core_multi_shell", "parallelepiped", "lamellar_hg"]
 PY_MODELS = ["adsorbed_layer", "teubner_strey"]
+# one representative per structural class of parameter table (thorough tier explores these one level deeper)
+D4_MODELS = ["sphere", "core_shell_sphere", "cylinder", "core_multi_shell", "parallelepiped", "lamellar_hg", "vesicle",
+             "hollow_cylinder", "fractal", "multilayer_vesicle", "core_shell_ellipsoid", "binary_hard_sphere",
+             "spherical_sld", "triaxial_ellipsoid", "stacked_disks", "polymer_micelle"]
+SLOW_MODELS = ["pringle"]      # numerical double integral per call (~0.1 s per single-q evaluation block)
 BOUNDS = {
     "quick": {"models": QUICK_MODELS + PY_MODELS, "D": 3, "python_models_D": 1,
               "q_points": 9, "vector_sld_elements": "first two (all in the allmag dimension)"},
-    "thorough": {"models": "all 47 models with SLD parameters", "D": 4, "python_models_D": 1,
-                 "D_note": "models with >4 active SLD dimensions: D=3 plus all D=4 combinations that involve at most 2 SLD dimensions",
+    "thorough": {"models": "all 47 models with SLD parameters", "D": 3, "D4_models": D4_MODELS, "python_models_D": 1,
+                 "D2_models": SLOW_MODELS,
+                 "D_note": "D=4 models with >4 active SLD dimensions: all D=4 combinations that involve at most 2 SLD dimensions",
                  "q_points": 9, "vector_sld_elements": "first two (all in the allmag dimension)"},
 }
 CASE_TIMEOUT = 300
@@ -135,13 +141,16 @@ def _dims(ctx, name):
 
 def cases(ctx):
     out = []
-    D = 3 if ctx.quick else 4
     for name in models(ctx):
         dims = _dims(ctx, name)
         if is_py(name):
-            for k, c in deviations(dims, 1):
-                out.append({"model": name, "dev": k, "cfg": c})
-            continue
+            D = 1          # every magnetic call is refused before any arithmetic happens
+        elif name in SLOW_MODELS:
+            D = 2
+        elif ctx.quick:
+            D = 3
+        else:
+            D = 4 if name in D4_MODELS else 3
         nsld = sum(1 for d in dims if d[0].startswith("M:"))
         for k, c in deviations(dims, D):
             if k == 4 and nsld > 4:
